@@ -21,13 +21,13 @@ type EdgeCut func(b *ssa.BasicBlock, i int) bool
 // satisfying `to`, not passing through an instruction satisfying `avoid` and not using a cut edge?
 // Panic-terminated blocks have no successors, so paths into a panic never reach anything after it.
 func (p *Prog) PathExists(fn *ssa.Function, from ssa.Instruction, to, avoid Pred, cut EdgeCut) bool {
-	type start struct {
+	type pos struct {
 		b   *ssa.BasicBlock
 		idx int
 	}
-	var st start
+	var st pos
 	if from == nil {
-		st = start{fn.Blocks[0], 0}
+		st = pos{fn.Blocks[0], 0}
 	} else {
 		b := from.Block()
 		i := 0
@@ -36,28 +36,58 @@ func (p *Prog) PathExists(fn *ssa.Function, from ssa.Instruction, to, avoid Pred
 				i = j + 1
 			}
 		}
-		st = start{b, i}
+		st = pos{b, i}
 	}
-	seen := map[*ssa.BasicBlock]bool{}
+	seen := map[pos]bool{}
+	// after(call): the position following a call instruction
+	after := func(call ssa.Instruction) pos {
+		b := call.Block()
+		for j, in := range b.Instrs {
+			if in == call {
+				return pos{b, j + 1}
+			}
+		}
+		return pos{b, len(b.Instrs)}
+	}
 	var scan func(b *ssa.BasicBlock, idx int) bool
 	scan = func(b *ssa.BasicBlock, idx int) bool {
+		nested := IsTransparent(b.Parent())
 		for j := idx; j < len(b.Instrs); j++ {
 			in := b.Instrs[j]
+			if ret, isRet := in.(*ssa.Return); isRet && nested {
+				// the end of a transparent closure: continue behind its (only) call site
+				_ = ret
+				c := after(transparentSite[b.Parent()])
+				if seen[c] {
+					return false
+				}
+				seen[c] = true
+				return scan(c.b, c.idx)
+			}
 			if to != nil && to(in) {
 				return true
 			}
 			if avoid != nil && avoid(in) {
 				return false
 			}
+			if k := TransparentCallee(in); k != nil && len(k.Blocks) > 0 {
+				// step into the closure; its returns come back to j+1 (handled above)
+				e := pos{k.Blocks[0], 0}
+				if seen[e] {
+					return false
+				}
+				seen[e] = true
+				return scan(e.b, e.idx)
+			}
 		}
 		for i, s := range b.Succs {
 			if cut != nil && cut(b, i) {
 				continue
 			}
-			if seen[s] {
+			if seen[pos{s, 0}] {
 				continue
 			}
-			seen[s] = true
+			seen[pos{s, 0}] = true
 			if scan(s, 0) {
 				return true
 			}
@@ -110,6 +140,12 @@ func (p *Prog) OnlyVia(fn *ssa.Function, site ssa.Instruction, ifi *ssa.If, val 
 // IfsOn lists the If instructions whose condition satisfies pred (a leading NOT is stripped and
 // reported through neg).
 func (p *Prog) IfsOn(fn *ssa.Function, pred func(cond ssa.Value) bool) (ifs []*ssa.If, neg []bool) {
+	for _, k := range transparentKids[fn] {
+		defer func(k *ssa.Function) {
+			i2, n2 := p.IfsOn(k, pred)
+			ifs, neg = append(ifs, i2...), append(neg, n2...)
+		}(k)
+	}
 	for _, b := range fn.Blocks {
 		if len(b.Instrs) == 0 {
 			continue
@@ -150,6 +186,15 @@ func AllInstrs(fn *ssa.Function, pred Pred) []ssa.Instruction {
 			if pred(in) {
 				out = append(out, in)
 			}
+		}
+	}
+	for _, k := range transparentKids[fn] {
+		for _, in := range AllInstrs(k, pred) {
+			// the returns of a transparent closure are not exits of the enclosing function
+			if _, isRet := in.(*ssa.Return); isRet {
+				continue
+			}
+			out = append(out, in)
 		}
 	}
 	return out
@@ -321,6 +366,47 @@ func (p *Prog) Sources(v ssa.Value) []ssa.Value {
 			for _, e := range x.Edges {
 				walk(e, d+1)
 			}
+		case *ssa.Parameter:
+			// parameter of a transparent closure: the argument at its only call site
+			if site := transparentSite[x.Parent()]; site != nil {
+				for i, prm := range x.Parent().Params {
+					if prm == x && i < len(site.Call.Args) {
+						walk(site.Call.Args[i], d+1)
+						return
+					}
+				}
+			}
+			out = append(out, v)
+		case *ssa.Call:
+			if k := TransparentCallee(x); k != nil {
+				n := 0
+				for _, b := range k.Blocks {
+					if r, ok := b.Instrs[len(b.Instrs)-1].(*ssa.Return); ok && len(r.Results) == 1 {
+						walk(r.Results[0], d+1)
+						n++
+					}
+				}
+				if n > 0 {
+					return
+				}
+			}
+			out = append(out, v)
+		case *ssa.Extract:
+			if call, ok := x.Tuple.(*ssa.Call); ok {
+				if k := TransparentCallee(call); k != nil {
+					n := 0
+					for _, b := range k.Blocks {
+						if r, ok := b.Instrs[len(b.Instrs)-1].(*ssa.Return); ok && x.Index < len(r.Results) {
+							walk(r.Results[x.Index], d+1)
+							n++
+						}
+					}
+					if n > 0 {
+						return
+					}
+				}
+			}
+			out = append(out, v)
 		case *ssa.ChangeType:
 			walk(x.X, d+1)
 		case *ssa.Convert:
